@@ -93,6 +93,7 @@ func checkC06(e *Engine, r *Report) {
 		"R1 invalidate-on-committed-mutation (every exported mutator of Allocator/Offer: success return after a mutation passes invalidateOffers, inter-procedural summaries)",
 		"R2 stale-offer refusal (Commit mutates only under IsValid(); IsValid compares offer and allocator versions; newOffer copies, invalidateOffers increments)",
 		"data-flow: release removes only its own request id",
+		"R16 atomic update groups: zoneAssign and zoneRemove update all representations of a request's zone (Zone.users, Allocator.users, Request.zone, the journal) together on every path, with the values of their own arguments; zoneMove removes from the old zone and assigns to the new one unless they are equal",
 	}
 	r.NotDecided = []string{
 		"byte-for-byte equality of zone usage before/after a failed call (follows from revert-on-failure + journal completeness, not separately computed)",
@@ -109,6 +110,10 @@ func checkC06(e *Engine, r *Report) {
 		c.allocate == nil || c.realloc == nil || c.invalidate == nil || c.commit == nil || c.getOffer == nil {
 		return
 	}
+	checkZonePrimitives(e, r, c)
+	checkLibmemJournal(e, r, c)
+	checkLibmemOfferCommit(e, r, c)
+	checkLibmemAdmission(e, r, c)
 
 	// ---- rule 1: revert on failure ---------------------------------------
 	for _, fn := range []*ssa.Function{c.allocate, c.realloc} {
@@ -902,5 +907,145 @@ func (c *lmCtx) checkJournaling(r *Report) {
 				}
 				return false, false
 			})
+	}
+}
+
+// checkZonePrimitives (C06, shared with C07): the primitives keep the representations of "request id is in zone z" in
+// agreement — Zone.users[id], Allocator.users[id], Request.zone and the journal record.
+func checkZonePrimitives(e *Engine, r *Report, c *lmCtx) {
+	callTo := func(fn *ssa.Function) func(ssa.Instruction) bool {
+		return func(in ssa.Instruction) bool {
+			ci, ok := in.(ssa.CallInstruction)
+			if !ok || fn == nil {
+				return false
+			}
+			for _, g := range e.Callees(ci) {
+				if g == fn {
+					return true
+				}
+			}
+			return false
+		}
+	}
+	storeOf := func(f *types.Var) func(ssa.Instruction) bool {
+		return func(in ssa.Instruction) bool {
+			st, ok := in.(*ssa.Store)
+			return ok && fieldOfAddr(st.Addr) == f
+		}
+	}
+	mapW := func(f *types.Var) func(ssa.Instruction) bool {
+		return func(in ssa.Instruction) bool { return isMapWriteOf(in, f) }
+	}
+	r.AtomicGroup("R16:zone-assign-updates-all", "zoneAssign records the assignment in every representation", c.zoneAssign, []groupKind{
+		{"Zone.users", mapW(c.fZoneUsers)}, {"Allocator.users", mapW(c.fUsers)}, {"Request.zone", storeOf(c.fReqZone)}, {"journal", callTo(c.jAssign)}})
+	r.AtomicGroup("R16:zone-remove-updates-all", "zoneRemove erases the assignment from every representation", c.zoneRemove, []groupKind{
+		{"Zone.users", mapW(c.fZoneUsers)}, {"Allocator.users", mapW(c.fUsers)}, {"Request.zone", storeOf(c.fReqZone)}, {"journal", callTo(c.jDelete)}})
+	// values: assign records its own zone argument for its own request; remove clears
+	isReqID := func(v ssa.Value, req ssa.Value) bool { // req.ID() of the given request
+		call, ok := v.(*ssa.Call)
+		if !ok || callObj(call.Common()) == nil || callObj(call.Common()).Name() != "ID" || len(callArgs(call)) != 1 {
+			return false
+		}
+		return sameObject(callArgs(call)[0], req)
+	}
+	if fn := c.zoneAssign; fn != nil && len(fn.Params) == 3 {
+		zoneP, reqP := ssa.Value(fn.Params[1]), ssa.Value(fn.Params[2])
+		AllInstrs(fn, func(in ssa.Instruction) {
+			switch x := in.(type) {
+			case *ssa.Store:
+				if fieldOfAddr(x.Addr) == c.fReqZone {
+					ok := sameObject(x.Val, zoneP) && sameObject(x.Addr.(*ssa.FieldAddr).X, reqP)
+					r.Check("R16:zone-assign-values#Request.zone", "R16 atomic update group", "zoneAssign(zone, req) sets req.zone = zone", e.InstrPos(in), fn, ok, "", true)
+				}
+			case *ssa.MapUpdate:
+				if f, _ := loadedField(x.Map); f == c.fUsers {
+					ok := sameObject(x.Value, zoneP) && isReqID(x.Key, reqP)
+					r.Check("R16:zone-assign-values#Allocator.users", "R16 atomic update group", "zoneAssign(zone, req) sets users[req.ID()] = zone", e.InstrPos(in), fn, ok, "", true)
+				} else if f == c.fZoneUsers {
+					// the zone object is the one registered under the zone argument
+					_, zbase := loadedField(x.Map)
+					okZ := originAll(zbase, func(v ssa.Value) bool {
+						switch y := v.(type) {
+						case *ssa.Extract:
+							if lk, ok := y.Tuple.(*ssa.Lookup); ok {
+								f2, _ := loadedField(lk.X)
+								return f2 == c.fZones && sameObject(lk.Index, zoneP)
+							}
+						case *ssa.Lookup:
+							f2, _ := loadedField(y.X)
+							return f2 == c.fZones && sameObject(y.Index, zoneP)
+						case *ssa.Alloc:
+							// a new Zone: it must be stored into zones[zone]
+							stored := false
+							AllInstrs(fn, func(in2 ssa.Instruction) {
+								if mu, ok := in2.(*ssa.MapUpdate); ok && mu.Value == ssa.Value(y) {
+									if f3, _ := loadedField(mu.Map); f3 == c.fZones && sameObject(mu.Key, zoneP) {
+										stored = true
+									}
+								}
+							})
+							return stored
+						}
+						return false
+					})
+					ok := okZ && sameObject(x.Value, reqP) && isReqID(x.Key, reqP)
+					r.Check("R16:zone-assign-values#Zone.users", "R16 atomic update group", "zoneAssign(zone, req) sets zones[zone].users[req.ID()] = req (creating and registering the zone if needed)", e.InstrPos(in), fn, ok, "", true)
+				}
+			}
+		})
+	}
+	if fn := c.zoneRemove; fn != nil {
+		AllInstrs(fn, func(in ssa.Instruction) {
+			if st, ok := in.(*ssa.Store); ok && fieldOfAddr(st.Addr) == c.fReqZone {
+				k, isK := st.Val.(*ssa.Const)
+				z, _ := constIntVal(k)
+				r.Check("R16:zone-remove-values#Request.zone", "R16 atomic update group", "zoneRemove clears the removed request's zone", e.InstrPos(in), fn, isK && z == 0, "", true)
+			}
+		})
+	}
+	// zoneMove: unless the request already is in the target zone, it is removed from its current zone and assigned to the target
+	if fn := c.zoneMove; fn != nil && len(fn.Params) == 3 {
+		zoneP, reqP := ssa.Value(fn.Params[1]), ssa.Value(fn.Params[2])
+		same := func(val bool) Assumption { // `from == zone` evaluates to val
+			return func(cond ssa.Value) (bool, bool) {
+				b, ok := cond.(*ssa.BinOp)
+				if !ok || (b.Op != token.EQL && b.Op != token.NEQ) {
+					return false, false
+				}
+				if !(sameObject(b.X, zoneP) || sameObject(b.Y, zoneP)) {
+					return false, false
+				}
+				return true, (b.Op == token.EQL) == val
+			}
+		}
+		isRet := func(in ssa.Instruction) bool { _, ok := in.(*ssa.Return); return ok }
+		isAssign := func(in ssa.Instruction) bool {
+			ci, ok := in.(ssa.CallInstruction)
+			if !ok {
+				return false
+			}
+			for _, g := range e.Callees(ci) {
+				if g == c.zoneAssign {
+					a := callArgs(ci)
+					return len(a) == 3 && sameObject(a[1], zoneP) && sameObject(a[2], reqP)
+				}
+			}
+			return false
+		}
+		p := FindPath(PathQuery{Fn: fn, Assume: same(false), Target: isRet, Block: isAssign})
+		r.Check("R16:zone-move-assigns-target", "R16 atomic update group", "zoneMove(zone, req) assigns req to zone on every path where it is not there already", e.Pos(fn.Pos()), fn, p == nil, e.pathString(p), true)
+		p2 := FindPath(PathQuery{Fn: fn, Assume: same(true), Target: func(in ssa.Instruction) bool {
+			ci, ok := in.(ssa.CallInstruction)
+			if !ok {
+				return false
+			}
+			for _, g := range e.Callees(ci) {
+				if g == c.zoneRemove {
+					return true
+				}
+			}
+			return false
+		}})
+		r.Check("R16:zone-move-same-zone-keeps", "R16 atomic update group", "zoneMove to the zone the request is already in removes nothing", e.Pos(fn.Pos()), fn, p2 == nil, e.pathString(p2), true)
 	}
 }
